@@ -69,6 +69,7 @@ type BoundContract struct {
 	Trusted     bool
 	Variant     string
 	FreshResult map[int]bool
+	FreshOrNil  map[int]bool // "freshornil r": r is nil or an object allocated during the call
 	LoopExit    map[int][]ClauseExpr   // "loop N: exit P": P holds whenever loop N is left
 	UseLemma    map[int][]*ast.FuncLit // proved lemmas assumed at function entry (-1) or at the head of loop N
 	Lemma       *specFunc              // this bound contract is a lemma (proved by induction)
